@@ -635,6 +635,7 @@ func runRawSend(c *core.Case) {
 }
 
 func execRawSend(c *core.Case, rs *rawSendCase) {
+	base := stall.Snapshot(nil)
 	rp, err := newRawPeer()
 	if err != nil {
 		c.Count("setup_failures", 1)
@@ -774,11 +775,38 @@ func execRawSend(c *core.Case, rs *rawSendCase) {
 			}
 			ack(n)
 			peerClosed = true
-			select {
-			case werr = <-wres:
-			case <-time.After(hardLimit):
-				c.Inconclusive("raw receiver: the interrupted writer did not return")
-				return
+			// The stream is gone on this side: whatever the interrupted Write still
+			// sends is refused like any packet for an unknown session, until the
+			// writer gives up.
+			deadline := time.Now().Add(hardLimit)
+			for back := false; !back; {
+				select {
+				case werr = <-wres:
+					back = true
+					continue
+				default:
+				}
+				if time.Now().After(deadline) {
+					var where []string
+					for _, pk := range stall.Snapshot(nil) {
+						if _, old := base[pk.ID]; !old {
+							where = append(where, pk.Func+" ["+pk.State+"]")
+						}
+					}
+					c.Inconclusive("raw receiver: the interrupted writer did not return; parked library goroutines: %v", where)
+					return
+				}
+				m := rp.expect(isStreamEl, 20*time.Millisecond)
+				if m == nil {
+					continue
+				}
+				if m.Child(nsIBB, "data") != nil {
+					takeData(m)
+				}
+				// (a <close/> of the library's own that crosses ours is refused the same way)
+				if m.Name.Local == "iq" {
+					rp.send(fmt.Sprintf(`<iq type='error' id='%s' from='%s' to='%s'><error type='cancel'><item-not-found xmlns='%s'/></error></iq>`, m.Attr("id"), peerAddr, libAddr, nsStanzas))
+				}
 			}
 			// whatever else the library put on the wire
 			if !rp.barrier() {
@@ -821,6 +849,9 @@ func execRawSend(c *core.Case, rs *rawSendCase) {
 	}
 	// (a numbering problem already explains repeated or missing bytes)
 	if class, at := diffClass(recv, data); class != "" && problem == "" && !(peerClosed && class == "short") {
+		if class == "short" {
+			class = "loss"
+		}
 		c.Violate("ibb:"+class+":sender", "library → raw receiver (%s, block %d, %d bytes, partition %s, peer closed during write: %v): %d bytes arrived in %d packets; first departure (%s) at offset %d: got %s want %s",
 			rs.Carrier, rs.Block, len(data), rs.Dir.Part, peerClosed, len(recv), npk, class, at, around(recv, at), around(data, at))
 	}
